@@ -96,6 +96,8 @@ for nm, e in [
  ('opt_as_mut', '{ let mut o = Some(s.to_string()); if let Some(x) = o.as_mut() { x.push(\'!\'); }; o }'), ('opt_as_mut_none', '{ let mut o: Option<String> = None; if let Some(x) = o.as_mut() { x.push(\'!\'); }; o }'),
  ('vec_extend_vec', '{ let mut v: Vec<String> = vec![s.to_string()]; v.extend(vec!["x".to_string()]); v }'), ('vec_extend_iter', '{ let mut v: Vec<usize> = vec![1]; v.extend(s.bytes().map(|b| b as usize)); v }'), ('vec_append', '{ let mut a = vec![1u8]; let mut b = s.as_bytes().to_vec(); a.append(&mut b); (a, b) }'),
  ('string_truncate_boundary', '{ let mut x = s.to_string(); if x.is_char_boundary(n.min(x.len())) { x.truncate(n); }; x }'),
+ ('enum_match', '{ let e = if n > 1 { E::A(n) } else if s.is_empty() { E::C } else { E::B(s.to_string()) }; match e { E::A(x) => x, E::B(t) => t.len() + 100, E::C => 7 } }'), ('enum_method', '{ let e = if n > 1 { E::A(n) } else if s.is_empty() { E::C } else { E::B(s.to_string()) }; e.msg() }'),
+ ('enum_result_err', '{ fn f(s: &str) -> Result<usize, E> { if s.is_empty() { return Err(E::C) } Ok(s.len()) } f(s).map_err(|e| e.msg()) }'),
  ('closure_mut', '{ let mut k = 0usize; let mut f = |x: usize| { k += x; }; f(1); f(n); k }'),
 ]: add('sn', nm, e)
 
@@ -123,7 +125,7 @@ def rust_lit(kind, inp):
     if kind == 'ux': return '%d, %d, %d, %d' % inp
 
 def gen():
-    out = ['#![allow(unused, unused_mut, unused_parens, clippy::all)]']
+    out = ['#![allow(unused, unused_mut, unused_parens, clippy::all)]', 'pub enum E { A(usize), B(String), C }', 'impl E { fn msg(self) -> String { match self { E::A(x) => format!("a{}", x), E::B(t) => t, E::C => "c".to_string() } } }']
     for name, kind, expr in P:
         out.append('#[inline(never)] pub fn p_%s_%s(%s) -> String { format!("{:?}", %s) }' % (kind, name, SIG[kind], expr))
     out.append('fn main() {')
